@@ -98,7 +98,8 @@ theorem truncate_sim (f : FileH) (d : Dev)
       (∀ q, d'.img.getByte q ≠ d.img.getByte q → q = statusOff d.fs ∨
         ∃ x ∈ fileChain d.fs d.img f, FatEntryPos d.fs x q) ∧
       (∀ x, x ∉ fileChain d.fs d.img f → tabView d'.fs d'.img x = tabView d.fs d.img x) ∧
-      (∀ x ∈ fileChain d'.fs d'.img f', x ∈ fileChain d.fs d.img f) := by
+      (∀ x ∈ fileChain d'.fs d'.img f', x ∈ fileChain d.fs d.img f) ∧
+      (∀ E D : Nat → Prop, (∀ x ∈ fileChain d.fs d.img f, E x) → Trace d.fs E D d d') := by
   obtain ⟨sz, hsz⟩ := hrep.file
   have hinv := hrep.inv
   have hcsp := hg.cs_pos
@@ -123,6 +124,8 @@ theorem truncate_sim (f : FileH) (d : Dev)
   have htot1 : d1.fs.totalClusters = d.fs.totalClusters := hs1.geom.totalClusters
   have hstatus := setDirtyFlag_only_status d d1 hr1 hfa (by
     have := hg.status_lt; have := hg.fat_dev; omega) hwf
+  have htr1 : ∀ E D : Nat → Prop, Trace d.fs E D d d1 := setDirtyFlag_trace d d1 hr1 hfa (by
+    have := hg.status_lt; have := hg.fat_dev; omega)
   have hfe : ∀ x q, FatEntryPos d1.fs x q ↔ FatEntryPos d.fs x q := by
     intro x q; unfold FatEntryPos
     rw [hs1.geom.fatSlice, hs1.geom.fatType]
@@ -207,7 +210,7 @@ theorem truncate_sim (f : FileH) (d : Dev)
     have hind : ∀ x ∈ cur :: (fileChain d.fs d.img f).drop (i + 1),
         2 ≤ x ∧ x < d1.fs.totalClusters + 2 ∧ tabView d1.fs d1.img x ≠ .free := by
       intro x hx; rw [← hdrop] at hx; exact hlive x (List.mem_of_mem_drop hx)
-    obtain ⟨d2, hr2, hst2, htv2, hinfo2, hfr2, hfi2⟩ := run_truncateClusterChain_fine cur _ d1 hd1 hinfoOk1 hchd hndd hind
+    obtain ⟨d2, hr2, hst2, htv2, hinfo2, hfr2, hfi2, htr2⟩ := run_truncateClusterChain_fine cur _ d1 hd1 hinfoOk1 hchd hndd hind
     rw [htv1] at htv2
     have hrun : run (truncBody f1) d1 = (.ok f1, d2) := by
       unfold truncBody
@@ -265,7 +268,9 @@ theorem truncate_sim (f : FileH) (d : Dev)
         { (absFile d.fs d.img f).truncEntry with chain := (fileChain d.fs d.img f).take (i + 1) } :=
       hcore_of d2 f1 _ hgeo2 hda2 hfc2 rfl rfl (by rw [hf1sz]; rfl) hf1first hf1off hf1cur
     refine ⟨f1, d2, hrun, hs1.trans hst2, rfl, hcore, ?_, hinfo2,
-      hdiff d2 _ (fun x hx => by rw [← hdrop] at hx; exact List.mem_of_mem_drop hx) hfi2, ?_, ?_⟩
+      hdiff d2 _ (fun x hx => by rw [← hdrop] at hx; exact List.mem_of_mem_drop hx) hfi2, ?_, ?_,
+      fun E D hE => (htr1 E D).trans ((htr2 E D (fun x hx => hE x (by
+        rw [← hdrop] at hx; exact List.mem_of_mem_drop hx))).frame hs1.geom.symm)⟩
     rotate_left 1
     · intro x hx
       rw [htv2]
@@ -316,7 +321,7 @@ theorem truncate_sim (f : FileH) (d : Dev)
     | some n =>
       have hch := hrep.chain n hfirst
       have hch1 : Chain (tabView d1.fs d1.img) n (fileChain d.fs d.img f) := by rw [htv1]; exact hch
-      obtain ⟨d2, hr2, hst2, htv2, hinfo2, hfr2, hfi2⟩ := run_freeClusterChain_fine n _ d1 hd1 hinfoOk1 hch1 hinv.nodup hlive
+      obtain ⟨d2, hr2, hst2, htv2, hinfo2, hfr2, hfi2, htr2⟩ := run_freeClusterChain_fine n _ d1 hd1 hinfoOk1 hch1 hinv.nodup hlive
       have hrun : run (truncBody f1) d1 = (.ok { f1 with firstCluster := none }, d2) := by
         unfold truncBody
         rw [hf1cur, hcc]
@@ -337,7 +342,8 @@ theorem truncate_sim (f : FileH) (d : Dev)
           show ({ f1 with firstCluster := none } : FileH).size?.getD 0 = _
           have : ({ f1 with firstCluster := none } : FileH).size? = f1.size? := rfl
           rw [this, hf1sz]; rfl) rfl hf1off hf1cur
-      refine ⟨_, d2, hrun, hs1.trans hst2, rfl, hcore, ?_, hinfo2, hdiff d2 _ (fun x hx => hx) hfi2, ?_, ?_⟩
+      refine ⟨_, d2, hrun, hs1.trans hst2, rfl, hcore, ?_, hinfo2, hdiff d2 _ (fun x hx => hx) hfi2, ?_, ?_,
+        fun E D hE => (htr1 E D).trans ((htr2 E D hE).frame hs1.geom.symm)⟩
       rotate_left 1
       · intro x hx
         rw [htv2, htv1]
@@ -368,7 +374,7 @@ theorem truncate_sim (f : FileH) (d : Dev)
         hcore_of d1 f1 _ (FsGeomEq.refl _) hdat1 hfc1 rfl rfl (by rw [hf1sz]; rfl) hf1first hf1off
           hf1cur
       refine ⟨f1, d1, hrun, hs1, rfl, hcore, ?_, hinfoOk1, hdiff d1 [] (fun x hx => by cases hx) (fun q _ => rfl),
-        fun x _ => by rw [htv1], ?_⟩
+        fun x _ => by rw [htv1], ?_, fun E D _ => htr1 E D⟩
       rotate_left 1
       · intro x hx
         have hx' : x ∈ fileChain d1.fs d1.img f1 := hx
